@@ -486,6 +486,7 @@ class Ctx:
         self.solver.set("timeout", timeout_ms)
         self.angles: list[Angle] = []
         self.roots: list[Val] = []  # candidate non-negative roots
+        self.fresh_sqrts = []
         self.fresh = 0
         self.memo = {}
         self.resolutions = []  # log
@@ -598,8 +599,15 @@ class Ctx:
                     self.resolutions.append(("sqrt", "root-table"))
                     break
         if res is None:
+            for (a_prev, y_prev) in self.fresh_sqrts:
+                if self.entails_eq(a, a_prev, 3000):
+                    res = y_prev
+                    self.resolutions.append(("sqrt", "reuse"))
+                    break
+        if res is None:
             y = self.new("sqrt")
             res = Val.term(y)
+            self.fresh_sqrts.append((a, res))
             self.axiom(y >= 0, v_eq(res * res, a))
             self.defs.append(("sqrt", V.ge(a, 0)))
             self.resolutions.append(("sqrt", "fresh"))
